@@ -171,10 +171,8 @@ func reSubjects(pat string, maxLen int, rng *rand.Rand, extra int) []string {
 }
 
 var (
-	reZeroRepeat   = regexp.MustCompile(`\{0\}`)
 	reGroupHead    = regexp.MustCompile(`^(P<n\d>|i:|:)`) // what is left of `(?P<n1>`, `(?i:`, `(?:` before the first alternative
 	rePrefixAlt    = regexp.MustCompile(`([^|()\[\\*+?.^$]+)\|([^|()\[\\*+?.^$]+)`)
-	reQuantFlagGrp = regexp.MustCompile(`\(\?[a-zA-Z-]+\)([*+?]|\{\d)`)
 )
 
 // c11Classify names the input class of a non-equivalent rewrite. Classes are narrow
@@ -205,13 +203,9 @@ func c11Classify(a, b, how string) string {
 		return "posix-space-class"
 	case isPrefixAlt(a) && how == "match-differs":
 		return "prefix-suffix-alternation"
-	case strings.Contains(a, "{{"):
-		return "adjacent-literal-braces"
-	case reQuantFlagGrp.MatchString(a):
-		return "quantified-flag-group"
-	case reZeroRepeat.MatchString(a):
-		return "zero-repeat"
 	default:
+		// (the classes zero-repeat, quantified-flag-group and adjacent-literal-braces were repaired in the
+		// repository and are not input classes any more: a recurrence is reported as "other")
 		return "other:" + how
 	}
 }
